@@ -276,11 +276,12 @@ Section LastHop.
     pop_last cands = Some (candidate, rest) ->
     rhi rec stack locally candidate st = (Val (Some a), st1) ->
     qav (a, port) q mc st1 = (Val (Some (NRAnswer rrs soa)), st2) ->
+    (forall r, In r rrs -> owned_elsewhere zs q r = false) ->          (* cut_at_local_authority cuts nothing *)
     cstep rec loop stack q combined mc cands next locally st
     = (Val (ROk (NonAuthoritative (prioritising_merge combined rrs) soa)), (cache_insert_all (fst st2) rrs, snd st2)).
   Proof.
-    intros Ep Eh Eq. unfold candidate_step. rewrite Ep. unfold rbind at 1. rewrite Eh.
-    unfold rbind at 1. rewrite Eq. reflexivity.
+    intros Ep Eh Eq Hno. unfold candidate_step. rewrite Ep. unfold rbind at 1. rewrite Eh.
+    unfold rbind at 1. rewrite Eq. unfold resolve_with_nameserver_response. rewrite (cut_answer_same zs q rrs soa Hno). reflexivity.
   Qed.
 
   (* LAST HOP.  The loop is at a delegation no deeper than the zone [z] that owns the question name
@@ -309,13 +310,14 @@ Section LastHop.
       pose proof (validate_plain_answer q true RCODE_NoError _ [] [] mc Hplain Hne) as Hv.
       destruct (qav_delivered u a q _ mc st1 _ Hd Hbud Hserve (msg_matches _ _ _ _ _ _ (or_introl eq_refl)) Hv) as [ts' [Eq _]].
       eexists. rewrite (cstep_answer _ _ _ _ _ _ _ _ _ _ _ _ _ _ _ _ _ Ep Eh Eq).
+      2:{ intros r Hr. apply owned_elsewhere_qname. eapply Forall_forall in Hplain; [|exact Hr]. exact (proj1 (proj2 Hplain)). }
       rewrite merge_nil_l, Hsoa. reflexivity.
     - destruct Ho as (Hb & _).
       apply best_zone_spec in Hb. destruct Hb as [Hb|[_ Hsub]]; [discriminate|].
       assert (Hv : validate_nameserver_response q (msg q true rcode [] [uz_soa z] []) mc = Ok (Some (NRAnswer [] (Some (uz_soa z))))).
       { apply validate_denial; [exact Hrc|exact Hsoat|rewrite Hsoan; exact Hsub|rewrite Hsoan; exact Hmc]. }
       destruct (qav_delivered u a q _ mc st1 _ Hd Hbud Hserve (msg_matches _ _ _ _ _ _ Hrc) Hv) as [ts' [Eq _]].
-      eexists. rewrite (cstep_answer _ _ _ _ _ _ _ _ _ _ _ _ _ _ _ _ _ Ep Eh Eq).
+      eexists. rewrite (cstep_answer _ _ _ _ _ _ _ _ _ _ _ _ _ _ _ _ _ Ep Eh Eq) by (intros r []).
       rewrite merge_nil_l, Hnil, Hsoa. reflexivity.
   Qed.
 
@@ -380,7 +382,8 @@ Section LastHop.
       - destruct (q_type q =? RT_AAAA); [|reflexivity]. rewrite (Hno RT_AAAA (or_intror eq_refl)). reflexivity. }
     split.
     - unfold candidate_step. rewrite Ep. unfold rbind at 1. rewrite Eh. unfold rbind at 1. rewrite Eq.
-      unfold resolve_with_nameserver_response, rbind, insert_all, ret. rewrite Hglue. cbn [fst snd ns_match_count ns_name ns_hostnames].
+      unfold resolve_with_nameserver_response, resolve_with_response_match, cut_at_local_authority, lift_res, rbind, insert_all, ret.
+      rewrite Hglue. cbn [fst snd ns_match_count ns_name ns_hostnames].
       rewrite Hrrs. reflexivity.
     - split; [|exact Hbud']. intro h. rewrite Hnames. split.
       + intros [r [H1 H2]]. apply Hns_in in H1. exists r. tauto.
